@@ -9,7 +9,8 @@
    filtered v f           mirror of Node._add_filtered with its parent stack (Tree.filtered / copy(predicate=))
    dbl v g                g plus the D24 leaves (known finding, pinned by tests/test_core.py::TestCopy::test_filtered) *)
 From Coq Require Import List ZArith Bool Arith.
-From NT Require Import Sx Rose Filter FilterProofs CaseC08.  (* CaseC08: so that the correspondence entry point is rebuilt with the theorems *)
+From NT Require Import Sx Rose Filter FilterProofs FilterSource CaseC08.  (* CaseC08: so that the correspondence entry point is rebuilt with the theorems *)
+From NTGen Require Import Generated.
 Import ListNotations.
 
 (* ---- the set of kept nodes ---------------------------------------- *)
@@ -208,6 +209,30 @@ Theorem C08_returned_raised_equal :
   (forall r, classify_ip (call_predicate r) = classify_cp (call_predicate r)).
 Proof. exact (conj returned_raised_same (conj stop_iteration_is_stop classify_same)). Qed.
 Print Assumptions C08_returned_raised_equal.
+
+(* ---- obligations on the source text (regenerated on every run) ------ *)
+(* the chain of tests of each scan, read off the source in source order, sends every
+   canonical predicate result to the arm whose statements are the behaviour the model
+   implements for [classify_ip] / [classify_cp] of that result *)
+Theorem C08_source_inplace_chain : forall r, chain_verdict ip_table FILTER_INPLACE_CHAIN r = Some (classify_ip r).
+Proof. exact inplace_chain_is_classify_ip. Qed.
+Print Assumptions C08_source_inplace_chain.
+
+Theorem C08_source_copy_chain : forall r, chain_verdict cp_table FILTER_COPY_CHAIN r = Some (classify_cp r).
+Proof. exact copy_chain_is_classify_cp. Qed.
+Print Assumptions C08_source_copy_chain.
+
+Theorem C08_source_loop_frames :
+  facts_eqb FILTER_INPLACE_PRELOOP [FaNonlocal; FaInitRemove; FaInitKeep] = true /\
+  facts_eqb FILTER_INPLACE_PROLOGUE [FaGuardStopped; FaCallPredicate] = true /\
+  facts_eqb FILTER_INPLACE_EPILOGUE [] = true /\
+  facts_eqb FILTER_INPLACE_POSTLOOP [FaRemoveCollected; FaReturnMustKeep] = true /\
+  facts_eqb FILTER_COPY_PRELOOP [] = true /\
+  facts_eqb FILTER_COPY_PROLOGUE [FaPush; FaCallPredicate] = true /\
+  facts_eqb FILTER_COPY_EPILOGUE [FaPop] = true /\
+  facts_eqb FILTER_COPY_POSTLOOP [FaReturn] = true.
+Proof. exact loop_frames_are_modelled. Qed.
+Print Assumptions C08_source_loop_frames.
 
 (* only the answers on the nodes of the forest matter *)
 Theorem C08_ext : forall v w f, (forall n, In n (ids f) -> v n = w n) -> F v f = F w f.
